@@ -26,6 +26,9 @@ pub const TEXTS: &[(&str, &str)] = &[
     ("list-nested-ref", "# L\n\n- item [z](2)\n  - [x](1)\n"),
     ("two-sections", "# S\n\n## S1\n\n[x](2)\n\n## S2\n\ntext\n"),
     ("empty", ""),
+    // quotes: blocks inside a quote hang off the quote node; an empty quote that ends a section
+    ("quote-with-heading", "# Q\n\n> # inner\n>\n> [x](1)\n>\n> text [y](2)\n"),
+    ("empty-quote-ends-section", "# E\n\n## Sub\n\npara\n\n>\n\n## Sub 2\n\n[x](1)\n"),
     // front-matter that a later version of the note no longer has
     ("front-matter", "---\nk: v\n---\n\n# F\n\ntext\n"),
     // one link after a block of every kind (each arm of the index walk has a successor that matters)
